@@ -25,11 +25,13 @@ def load(ctx):
 
 
 @contextlib.contextmanager
-def real_runtime(so):
+def real_runtime(so, seed=None):
     """Run pysyncobj on its GENUINE clock and PRNG for the duration of the block, whatever earlier
     components of this process left patched into the modules (harness/sim.py installs a virtual
     `monotonicTime` and a scripted `random` and never removes them: with a frozen clock no election
-    ever happens).  The previous values are put back afterwards."""
+    ever happens).  With `seed`, pysyncobj.syncobj draws from a private `random.Random(seed)` (election
+    time-outs, start value of commandsLocalCounter), so a run replays.  The previous values are put back
+    afterwards."""
     import random as _random
     import pysyncobj.transport as tr
     import pysyncobj.tcp_connection as tc
@@ -38,7 +40,7 @@ def real_runtime(so):
     so.monotonicTime = monotonic
     tr.monotonicTime = monotonic
     tc.monotonicTime = monotonic
-    so.random = _random
+    so.random = _random if seed is None else _random.Random(seed)   # same API, private state
     try:
         yield
     finally:
